@@ -153,6 +153,13 @@ func init() {
 		p.ValueBad = 0.15
 		p.BadDecl = 0.01
 	}, oracleNoPanic, oracleExec, oracleConserved)
+	{
+		base := props["C09"]
+		props["C09"] = propRun{rule: base.rule + "; dispatch stage: command trees with SubcommandsOptional set independently on the parser and every command, executable commands at every level, argument vector = a path of command words stopping at a random depth; expected outcome stated from the public model (ErrCommandRequired and nothing runs, or exactly one dispatch of the innermost command)", run: func(c *Ctx) {
+			base.run(c)
+			checkC09Dispatch(c, budget(c.Tier, 1200, 50000))
+		}}
+	}
 	parseProp("C10", caseRule+"emphasis: positional arguments of all kinds interleaved with options and the terminator", 2500, 100000, func(p *Profile) {
 		p.PosArgs = 0.9
 		p.Unknown = 0.03
